@@ -27,8 +27,21 @@ Definition fname := N.   (* function name *)
 Inductive param := PF (g : fname) | PV (x : vname).
 
 (* native functions reachable from F through opcall *)
-Inductive fn0 := F0Error | F0Length.
+Inductive fn0 := F0Error | F0Length | F0ToString | F0ToJson.   (* tostring / tojson: what string interpolation applies *)
 Inductive binop := OAdd | OSub | OEq | ONe | OLt | OLe | OGt | OGe.
+
+(* destructuring patterns of `as` (query.go Pattern): $x, [p, ...], {k: p, "k": p, $x, $x: p}.
+   `$x` in an object pattern is  k: $x  with k the name of x (compilePattern emits the same code); `$x: p` binds x to the
+   field named like x AND destructures it with p (OKeyVar k x p; the harness supplies k = the name).
+   Keys computed by a query `(q): p` or by an interpolated string are not in the fragment. *)
+Inductive pattern :=
+| PVar (x : vname)
+| PArr (l : parr)
+| PObj (l : pobj)
+with parr := ANil | ACons (p : pattern) (r : parr)
+with pobj := ONil
+  | OKey (k : list N) (p : pattern) (r : pobj)
+  | OKeyVar (k : list N) (x : vname) (p : pattern) (r : pobj).
 
 Inductive query :=
 | QId
@@ -51,7 +64,14 @@ Inductive query :=
 | QCall0 (f : fn0)
 | QBinop (o : binop) (a b : query)    (* a o b : the operands are compiled as argument closures *)
 | QDef (f : fname) (ps : list param) (body rest : query)   (* def f(ps): body; rest *)
-| QCallF (f : fname) (args : list query).                  (* f(args): a user-defined function or a filter parameter *)
+| QCallF (f : fname) (args : list query)                   (* f(args): a user-defined function or a filter parameter *)
+| QObject (es : list ((list N + query) * query))
+| QBindP (src : query) (p : pattern) (body : query)
+| QIndexQ (t q : query)           (* t[q] with a computed index (compileIndex -> _index); a literal number / string index is QIndex *)
+| QSlice (t a b : query).         (* t[a:b] with at least one computed bound (-> _slice); an absent bound is QConst VNull;
+                                     both bounds literal / absent is QIndex with the key {"start": a, "end": b} *)
+    (* QObject: {e1, ..., en}: an entry is (key, value); the key is a constant string (inl: `k: v`, `"k": v`, and the
+       shorthands `k` = (inl k, .[k]), `$x` = (inl "x", $x)) or a query (inr: `(q): v`, `$x: v` = (inr $x, v)) *)
 
 (* number of anonymous variables the compiler allocates while compiling a literal
    (compileArray / compileObject call newVariable before folding) *)
@@ -63,6 +83,39 @@ Fixpoint lit_vars (c : jv) : nat :=
   | VObj l => S ((fix go (l : list (list N * jv)) := match l with [] => 0 | (_, x) :: r => lit_vars x + go r end) l)
   | _ => 0
   end.
+
+(* ---- object construction (execute.go opobject; compiler.go compileObject's constant folding) ----
+   objects are association lists sorted by key (bytewise string order), one entry per key *)
+Fixpoint str_cmp (a b : list N) : comparison :=
+  match a, b with
+  | [], [] => Eq | [], _ => Lt | _, [] => Gt
+  | x :: ra, y :: rb => match N.compare x y with Eq => str_cmp ra rb | c => c end
+  end.
+Definition str_eqb (a b : list N) : bool := match str_cmp a b with Eq => true | _ => false end.
+Fixpoint obj_has (k : list N) (l : list (list N * jv)) : bool :=
+  match l with
+  | [] => false
+  | (k', _) :: r => str_eqb k k' || obj_has k r
+  end.
+Fixpoint obj_put (k : list N) (v : jv) (l : list (list N * jv)) : list (list N * jv) :=
+  match l with
+  | [] => [(k, v)]
+  | (k', v') :: r => match str_cmp k k' with
+                     | Lt => (k, v) :: l
+                     | Eq => (k, v) :: r
+                     | Gt => (k', v') :: obj_put k v r
+                     end
+  end.
+(* opobject pops the pairs from the last to the first; a key that is not a string is an error
+   (objectKeyNotStringError); a key already present is not overwritten (so the LAST pair of the source wins) *)
+Fixpoint mk_obj_rev (ps : list (jv * jv)) (m : list (list N * jv)) : jv + err0 :=
+  match ps with
+  | [] => inl (VObj m)
+  | (VStr s, v) :: r => mk_obj_rev r (if obj_has s m then m else obj_put s v m)
+  | _ :: _ => inr (EMsg [])
+  end.
+(* the pairs in source order *)
+Definition mk_obj (ps : list (jv * jv)) : jv + err0 := mk_obj_rev (rev ps) [].
 
 Fixpoint lookup {A} (x : N) (l : list (N * A)) : option A :=
   match l with
